@@ -332,7 +332,16 @@ impl MigScenario {
         let params = if interval == 144 && ch.chance("zip318", 1, 2) { SchedulingParams::ZIP_318 } else { SchedulingParams::new_with_default_distributions(iv) };
         let top = ch.chance("near_u32_max", 1, 12);
         let activation = if top { u32::MAX - 200_000 - ch.below("act.top", 100_000) as u32 } else { 1 + ch.below("activation", 3000) as u32 };
-        let commit_height = if top { u32::MAX - ch.below("commit.top", 150_000) as u32 } else { activation + 6 * interval + ch.below("commit.off", 2000) as u32 };
+        let commit_height = if top {
+            u32::MAX - ch.below("commit.top", 150_000) as u32
+        } else if ch.chance("commit.near_expiry_rollover", 1, 4) {
+            // just below a roll-over of the canonical expiry (34 560 blocks), so that the schedule straddles it and
+            // early and late transactions of one migration expire at different heights
+            ctx.probe("schedule_straddles_expiry_rollover");
+            34_560 * (1 + ch.below("commit.epoch", 3) as u32) - ch.below("commit.below", 400) as u32
+        } else {
+            activation + 6 * interval + ch.below("commit.off", 2000) as u32
+        };
         let n_prep = ch.below("n_prep", 4) as usize;
         let n_tr = 1 + ch.below("n_transfer", 6) as usize;
         ctx.config = json!({"interval": interval, "activation": activation, "commit_height": commit_height, "preps": n_prep, "transfers": n_tr, "rng": format!("{:?}", rng.kind), "near_u32_max": top});
